@@ -1,5 +1,5 @@
 """C04 / C07 / C18 (field level): per datatype module, the accept language of validate_encoded and decode equals the oracle
-grammar (specs/grammar.py) on document fields, only gfapy.Error subclasses escape for ANY string, and
+grammar (specs/grammar.py) on every string (free-text datatypes: on document fields), only gfapy.Error subclasses escape for ANY string, and
 L(decode) ⊆ L(unsafe_decode)."""
 import z3
 from pyvc.contract import Contract, Case, register
@@ -100,14 +100,17 @@ def make(dt, mod, fname):
         fn = "gfapy/field/%s.py::%s" % (mod, fname)
         props = ("C04", "C07", "C18") if fname != "unsafe_decode" else ("C07", "C18")
         fragment = "S"
-        doc = ("%s.%s: accepts exactly the oracle grammar of datatype %s on document fields (modulo the listed ≈ cells); "
+        doc = ("%s.%s: accepts exactly the oracle grammar of datatype %s on all strings (modulo the listed ≈ cells); "
                "only gfapy.Error subclasses escape for any string" % (mod, fname, dt))
 
         def cases(self, ctx):
             g = ctx.gfapy
             s = z3.String("s")
             G, A = glang(dt), alang(dt)
-            infield = z3.InRe(s, FIELD)
+            # every datatype with a grammar of its own is pinned on ALL strings (a tab or a newline inside a value, as the API can hand
+            # over, must be refused: the validators end with \Z since fix "a value followed by a newline ..."); the two free-text
+            # datatypes are pinned on what a document field can be
+            infield = z3.InRe(s, FIELD) if dt in ("generic", "comment") else z3.BoolVal(True)
             strict = fname != "unsafe_decode"
             def post(k, v, st):
                 if k == "raise":
